@@ -82,6 +82,21 @@ def check(run, P):
              "leaves the loop only under 'not result.is_changed()'; each sweep works "
              "on a freshly built list", minimum=3)
 
+    run.rule("C14.operands",
+             "in KindInferenceMapper every operand of a sum/product contributes: the "
+             "loop that folds child kinds with unify() has no break/return, and an "
+             "operand whose kind was obtained always reaches unify()", minimum=2)
+    run.rule("C14.provisional",
+             "KindInferenceMapper raises a hard error about an operand's kind only "
+             "under self.check (on the final pass), never on the provisional kinds "
+             "of a work-list sweep", minimum=4)
+    run.rule("C14.pairing",
+             "phase names and phase statement lists handed to SymbolKindFinder are "
+             "derived from the same sequence in the same order, and are paired by "
+             "zip() inside", minimum=3)
+    _mapper(run, P)
+    _pairing(run, P)
+
     f = P.func(f"{DATA}.unify")
     dom = kind_domain(P)
     vals = dom.values()
@@ -366,3 +381,164 @@ def _parent_if(root, target):
 
     visit(root, None)
     return parent
+
+
+def _mapper(run, P):
+    from ..engine.match import terminal
+    K = P.cls(f"{DATA}.KindInferenceMapper")
+    for name, m in sorted(K.methods.items()):
+        if not name.startswith("map_"):
+            continue
+        g = CFG(m.node)
+        # --- folds over operands
+        for lp in [n for n in ast.walk(m.node) if isinstance(n, ast.For)]:
+            unis = [x for x in ast.walk(lp) if isinstance(x, ast.Call) and dotted(x.func) == "unify"]
+            if not unis or not isinstance(lp.target, ast.Name):
+                continue
+            v = lp.target.id
+            leaves = [s_ for s_ in func_body_stmts(lp)
+                      if isinstance(s_, ast.Return)
+                      or (isinstance(s_, ast.Break) and _innermost_loop(m.node, s_) is lp)]
+            recs = [n for n in g.nodes if n.ast is not None and _inside(lp, n.ast if n.kind != "test" else n.label)
+                    and n.kind in ("stmt",) and any(
+                        isinstance(x, ast.Call) and dotted(x.func) == "self.rec"
+                        and x.args and dotted(x.args[0]) == v for x in walk_fragment(n.ast))]
+            uni_nodes = [n for n in g.nodes if n.kind == "stmt" and n.ast is not None and any(
+                any(x is u_ for u_ in unis) for x in walk_fragment(n.ast))]
+            head = g.node_of(lp)
+            skipped = []
+            for r in recs:
+                if r in uni_nodes:
+                    continue
+                if head in g.reachable([r], avoid=uni_nodes, follow_exc=False):
+                    skipped.append(r)
+            ok = not leaves and bool(recs) and not skipped
+            what = []
+            if leaves:
+                what.append("leaves the loop early by " + "/".join(
+                    sorted({type(x).__name__.lower() for x in leaves})))
+            if skipped:
+                what.append("an obtained operand kind can bypass unify()")
+            run.ob("C14.operands", m, lp, ok,
+                   construct=f"{name}: for {v} in {norm(lp.iter)}: every obtained kind is "
+                             f"folded with unify(), no early exit"
+                             + (f" ({'; '.join(what)})" if what else ""),
+                   why="unify is a join: the result is order-independent only if every "
+                       "operand known at the time takes part; stopping early makes the "
+                       "kind depend on which operands happened to be known")
+        # --- hard errors on operand kinds
+        kinds = set()
+        for x in ast.walk(m.node):
+            if isinstance(x, ast.Assign) and len(x.targets) == 1 and isinstance(x.targets[0], ast.Name) \
+                    and isinstance(x.value, ast.Call) and dotted(x.value.func) == "self.rec":
+                kinds.add(x.targets[0].id)
+        for t in [n for n in ast.walk(m.node) if isinstance(n, ast.If)]:
+            end = terminal(t.body)
+            if not isinstance(end, ast.Raise) or end.exc is None:
+                continue
+            exc = ast.unparse(end.exc)
+            if "UnableToInferKind" in exc:
+                continue
+            mentions = any(
+                (isinstance(x, ast.Name) and x.id in kinds)
+                or (isinstance(x, ast.Call) and dotted(x.func) == "self.rec")
+                for x in ast.walk(t.test))
+            if not mentions:
+                continue
+            conj = t.test.values if isinstance(t.test, ast.BoolOp) and isinstance(t.test.op, ast.And) \
+                else [t.test]
+            gated = any(dotted(c) == "self.check" for c in conj)
+            if not gated:
+                # nested under an enclosing 'if self.check:'
+                par = _parent_if(m.node, t)
+                while par is not None and not gated:
+                    pc = par.test.values if isinstance(par.test, ast.BoolOp) \
+                        and isinstance(par.test.op, ast.And) else [par.test]
+                    gated = any(dotted(c) == "self.check" for c in pc) and _inside_body(par, t)
+                    par = _parent_if(m.node, par)
+            run.ob("C14.provisional", m, t, gated,
+                   construct=f"{name}: raise {exc.split('(')[0]} on '{norm(t.test, 70)}' only under self.check",
+                   why="during a sweep an operand may still have a provisional kind "
+                       "(a sum seen before its array operand is known): rejecting it "
+                       "then makes inference fail for some statement orders only")
+
+
+def _inside_body(ifnode, node):
+    return any(x is node for s_ in ifnode.body for x in ast.walk(s_))
+
+
+_ORDER_CALLS = ("sorted", "reversed", "set", "frozenset")
+
+
+def _seq_signature(fn, expr):
+    """(root sequence, order-changing calls) of an expression that lists things
+    derived one-for-one from a sequence."""
+    ops = []
+    e = _resolve(fn, expr)
+    for _ in range(8):
+        e = _resolve(fn, e)
+        if isinstance(e, ast.ListComp) and len(e.generators) == 1 and not e.generators[0].ifs:
+            e = e.generators[0].iter
+        elif isinstance(e, ast.Call) and isinstance(e.func, ast.Name) and e.func.id in ("list", "tuple") \
+                and len(e.args) == 1:
+            e = e.args[0]
+        elif isinstance(e, ast.Call) and isinstance(e.func, ast.Name) and e.func.id in _ORDER_CALLS \
+                and e.args:
+            ops.append(e.func.id + ("(key)" if e.keywords else ""))
+            e = e.args[0]
+        elif isinstance(e, ast.Call) and isinstance(e.func, ast.Attribute) \
+                and e.func.attr in ("keys", "values", "items") and not e.args:
+            e = e.func.value
+        else:
+            break
+    return norm(e), tuple(ops)
+
+
+def _resolve(fn, expr):
+    if isinstance(expr, ast.Name):
+        defs = [s_.value for s_ in ast.walk(fn) if isinstance(s_, ast.Assign)
+                and len(s_.targets) == 1 and isinstance(s_.targets[0], ast.Name)
+                and s_.targets[0].id == expr.id]
+        if len(defs) == 1:
+            return defs[0]
+    return expr
+
+
+def _pairing(run, P):
+    sites = []
+    for f in P.all_funcs():
+        if f.module.trusted:
+            continue
+        finders = set()
+        for x in ast.walk(f.node):
+            if isinstance(x, ast.Assign) and len(x.targets) == 1 and isinstance(x.targets[0], ast.Name) \
+                    and isinstance(x.value, ast.Call) and (dotted(x.value.func) or "").endswith("SymbolKindFinder"):
+                finders.add(x.targets[0].id)
+        for x in ast.walk(f.node):
+            if not isinstance(x, ast.Call):
+                continue
+            direct = isinstance(x.func, ast.Call) and (dotted(x.func.func) or "").endswith("SymbolKindFinder")
+            via = isinstance(x.func, ast.Name) and x.func.id in finders
+            if (direct or via) and len(x.args) >= 2:
+                sites.append((f, x))
+    if len(sites) < 2:
+        raise AnalysisError(f"SymbolKindFinder call sites: expected >= 2, found {len(sites)}")
+    for f, c in sites:
+        a = _seq_signature(f.node, c.args[0])
+        b = _seq_signature(f.node, c.args[1])
+        # the second list may be built by looking the names up: [.. for n in names]
+        ok = a == b
+        run.ob("C14.pairing", f, c, ok,
+               construct=f"names from {a[0]}{' via ' + '/'.join(a[1]) if a[1] else ''}; "
+                         f"statement lists from {b[0]}{' via ' + '/'.join(b[1]) if b[1] else ''}",
+               why="names and bodies are paired by position: ordering one list and not "
+                   "the other files every phase-local symbol under the wrong phase "
+                   "unless the phases happen to be inserted in that order")
+    F = P.func(f"{DATA}.SymbolKindFinder.__call__")
+    n_, p_ = F.params[1], F.params[2]
+    loops = [x for x in ast.walk(F.node) if isinstance(x, ast.For)
+             and {n_, p_} <= {y.id for y in ast.walk(x.iter) if isinstance(y, ast.Name)}]
+    ok = bool(loops) and all(norm(x.iter) == f"zip({n_}, {p_})" for x in loops)
+    run.ob("C14.pairing", F, loops[0] if loops else F.node, ok,
+           construct=f"{len(loops)} loops over the phases, each 'zip({n_}, {p_})'",
+           why="the two parameters are parallel lists")
